@@ -91,6 +91,14 @@ Cro(r) ==
       /\ r.x.best_le = 1                             \* ... in the same order (each molecule's best belongs to its individual)
       /\ Name(r) \in CroUpdates => r.h = prev.h - 2  \* consumes exactly reactant and product populations
 
+\* ---- C17 (template level): cool, then accept -- the Metropolis decision of pass k uses t_0 * alpha^k
+Sa(r) ==
+    /\ Name(r) = "ExponentialAnnealingAcceptance" =>
+          /\ prev.ev = "step" /\ prev.name = "GeometricCooling"      \* directly after the cooling step
+          /\ r.x.t_next = 1                           \* temperature in force = t_0 * alpha^(completed passes + 1)
+    /\ Name(r) = "GeometricCooling" => r.x.t_next = 1                \* multiplied exactly once per pass
+    /\ Name(r) \in {"All", "PopulationEvaluator", "BestIndividualUpdate"} => r.x.t_iters = 1   \* nobody else changes it
+
 \* ---- what every record must satisfy, relative to the previous one
 Common(r) ==
     /\ On("C05") => r.stale = 0                      \* C05: nobody reports a value that is not f(solution)
@@ -102,6 +110,7 @@ Common(r) ==
          \* C07: the recorded best only improves, and only the update component changes it
          /\ prev.best # NoObj => r.best # NoObj /\ r.best <= prev.best
          /\ (r.ev # "step" \/ r.name # "BestIndividualUpdate") => r.best = prev.best
+    /\ (On("C17") /\ r.xk = "sa") => Sa(r)
     /\ (On("C18") /\ r.xk = "pso") => Pso(r)
     /\ (On("C19") /\ r.xk = "aco") => Aco(r)
     /\ (On("C20") /\ r.xk = "cro") => Cro(r)
@@ -178,6 +187,12 @@ End(r) == /\ r.ev = "end"
                 Dev(prev.best = r.minseen, "KF_IlsScopeWiring_Best", IsIls /\ prev.best > r.minseen)
           \* C19: generation always yields its tours and the updates are well-formed: an ant-colony run never aborts
           /\ (On("C19") /\ hdr.xk = "aco") => r.result = "ok"
+          \* C20: "all steps of CRO template runs": every pass performs one of the four reactions, none aborts
+          /\ (On("C20") /\ hdr.xk = "cro") => r.result = "ok" /\ r.iters = hdr.n
+          /\ (On("C17") /\ hdr.xk = "sa") => r.result = "ok" /\ r.iters = hdr.n
+          /\ (On("C18") /\ hdr.xk = "pso") =>
+                /\ r.result = "ok"
+                /\ r.iters = hdr.n
           /\ done' = TRUE /\ frames' = <<>>
           /\ UNCHANGED <<hdr, minr>> /\ prev' = prev
 
